@@ -118,6 +118,9 @@ func concRoutes() []ref.Route {
 		{Pattern: "svc.bt.foo.bar", Marker: "btlit", Group: "bt"},
 		{Pattern: "svc.bt.$id.baz", Marker: "btph", Group: "bt"},
 		{Pattern: "svc.bt.>", Marker: "btfull", Group: "bt"},
+		// options applied twice: the last one decides (shared defaults say Parallel, the
+		// resource's own options take it back and name a group)
+		{Pattern: "svc.pf.$id", Marker: "pf", Group: "pf"},
 	}
 }
 
@@ -190,6 +193,7 @@ func (e *concEngine) configure(s *res.Service) {
 	s.Handle("bt.foo.bar", with(h("btlit"), res.Group("bt"))...)
 	s.Handle("bt.$id.baz", with(h("btph"), res.Group("bt"))...)
 	s.Handle("bt.>", with(h("btfull"), res.Group("bt"))...)
+	s.Handle("pf.$id", with(h("pf"), res.Parallel(true), res.Group("pfx"), res.Parallel(false), res.Group("pf"))...)
 	sub := res.NewMux("")
 	sub.Route("u", func(m *res.Mux) {
 		m.Handle("$id", with(h("ufirst"), res.Group("${id}"))...)
@@ -296,7 +300,7 @@ func (e *concEngine) handle(kind string, r *res.Request) {
 }
 
 var concRIDs = []string{"svc.mnt.wk.a.%d.t", "svc.mnt.wk.b.%d.t.u", "svc.res.%d", "svc.sa.%d", "svc.sb.%d", "svc.tag.g%d.x", "svc.tag.g%d.y", "svc.mnt.item.%d", "svc.mnt.tg.g%d.z", "svc.mnt.deep.x.%d", "svc.mnt.thru.g%d.q", "svc.par.%d", "svc", "svc.mnt", "svc.pg.%d", "svc.t%d.zfirst", "svc.mnt.u.g%d", "svc.t%d.zfirst",
-	"svc.bt.foo.baz", "svc.bt.g%d.zap", "svc.bt.foo.bar", "svc.bt.foo.zap.x%d"}
+	"svc.bt.foo.baz", "svc.bt.g%d.zap", "svc.bt.foo.bar", "svc.bt.foo.zap.x%d", "svc.pf.%d", "svc.pf.%d"}
 
 func (e *concEngine) randRID(r *rand.Rand) string {
 	hot := e.cfg.HotGroups
